@@ -8,7 +8,10 @@ package main
 // readercontent[p] for *bytes.Reader / *os.File handles;
 // fsexists[path], fssize[path], fscontent[path] for the file system (keyed by path identity).
 
-import "go/types"
+import (
+	"go/types"
+	"strings"
+)
 
 func (x *Exec) ghostSel(st *State, name string, idx *Term) *Term {
 	return Select(st.ghostArr(name, SInt), idx)
@@ -35,6 +38,19 @@ func init() {
 		p := x.zeroValue(x.resolveType(sig.Results().At(0).Type())).(PtrV)
 		p.Addr = x.allocAddr(st, "buffer")
 		b := pc.args[0].(StrV)
+		// "The new Buffer takes ownership of buf, and the caller should not use buf after this
+		// call": memory that an object on the heap still refers to (a stored body) must not be
+		// handed over - byte slices are values in this model, so the alias is refused here.
+		owned := true
+		if b.Arr != nil {
+			b.Arr.walk(func(t *Term) {
+				if t.Op == "var" && len(t.Name) > 2 && t.Name[0] == 'H' && t.Name[1] >= '0' && t.Name[1] <= '9' && strings.Contains(t.Name, "_") {
+					owned = false
+				}
+			})
+		}
+		x.oblige(fr, st, "pre", "bytes.NewBuffer/owned-buffer@"+x.siteLabel(pc.e), BoolLit(owned), pc.e)
+		x.Obls[len(x.Obls)-1].Tag = "C01"
 		x.ghostSet(st, "buflen", p.Addr, b.Len)
 		x.ghostSet(st, "bufcontent", p.Addr, x.strID(st, b))
 		k(st, []Value{p})
